@@ -176,6 +176,10 @@ def mutated_locals(fi):
     return {x for x in out if not x.startswith(('__h', '__r__i'))} - set(fi.params) - {'self'}
 
 
+_PURE_BUILTINS = {'len', 'int', 'float', 'str', 'bool', 'sorted', 'min', 'max', 'sum', 'abs', 'round', 'range', 'list', 'dict', 'set', 'tuple', 'zip',
+                  'enumerate', 'isinstance', 'repr', 'any', 'all', 'reversed', 'divmod'}
+
+
 def _collect(fi, inline_depth=60, keep=()):
     flow = fi.flow
     effects = []
@@ -358,7 +362,11 @@ def _collect(fi, inline_depth=60, keep=()):
         if not ds or ('name', nm) in read_defs or any(id(d) in read_defs for d in ds):
             continue
         raw = cnd.node.value if isinstance(cnd.node, ast.Assign) else None
-        if raw is not None and any(isinstance(x, ast.Call) for x in ast.walk(raw)) and isinstance(cnd.value, ast.AST):
+
+        def impure(x):
+            nm_ = dotted(x.func) or ''
+            return not (nm_.startswith(('np.', 'numpy.', 'math.', 'cv2.get', 'os.path.')) or nm_ in _PURE_BUILTINS)
+        if raw is not None and any(isinstance(x, ast.Call) and impure(x) for x in ast.walk(raw)) and isinstance(cnd.value, ast.AST):
             effects.append(Effect('call', list(cnd.ctx), None, cnd.value, cnd.node))
     effects.sort(key=lambda e: (e.node.lineno, e.node.col_offset))
     return effects
@@ -624,41 +632,41 @@ def _untuple_comp_targets(e):
 
 
 def _comp_rename(e):
-    """Rename comprehension / lambda variables positionally inside an expression (de Bruijn-like)."""
+    """Rename comprehension / lambda variables by nesting depth and position (de Bruijn-like): two copies of one
+    comprehension standing side by side get the same names, so they compare equal."""
     e = _untuple_comp_targets(_fuse_comprehensions(copy_ast(e)))
-    counter = [0]
 
-    def rn(node, mapping):
+    def rn(node, mapping, depth):
         if isinstance(node, (ast.ListComp, ast.SetComp, ast.GeneratorExp, ast.DictComp)):
             mapping = dict(mapping)
+            k = 0
             for g in node.generators:
-                rn(g.iter, mapping)
+                rn(g.iter, mapping, depth + 1)
                 for nm in target_names(g.target):
-                    mapping[nm] = '_c%d' % counter[0]
-                    counter[0] += 1
-                rn(g.target, mapping)
+                    mapping[nm] = '_c%d_%d' % (depth, k)
+                    k += 1
+                rn(g.target, mapping, depth + 1)
                 for i in g.ifs:
-                    rn(i, mapping)
+                    rn(i, mapping, depth + 1)
             if isinstance(node, ast.DictComp):
-                rn(node.key, mapping)
-                rn(node.value, mapping)
+                rn(node.key, mapping, depth + 1)
+                rn(node.value, mapping, depth + 1)
             else:
-                rn(node.elt, mapping)
+                rn(node.elt, mapping, depth + 1)
             return
         if isinstance(node, ast.Lambda):
             mapping = dict(mapping)
-            for a in node.args.args:
-                mapping[a.arg] = '_c%d' % counter[0]
+            for k, a in enumerate(node.args.args):
+                mapping[a.arg] = '_c%d_%d' % (depth, k)
                 a.arg = mapping[a.arg]
-                counter[0] += 1
-            rn(node.body, mapping)
+            rn(node.body, mapping, depth + 1)
             return
         if isinstance(node, ast.Name) and node.id in mapping:
             node.id = mapping[node.id]
             return
         for c in ast.iter_child_nodes(node):
-            rn(c, mapping)
-    rn(e, {})
+            rn(c, mapping, depth)
+    rn(e, {}, 0)
     return e
 
 
@@ -675,6 +683,7 @@ def local_signatures(fi, params, surviving=None, keep=(), helper=None):
             if d.name not in first or ln < first[d.name][0]:
                 first[d.name] = (ln, d)
     sigs = {}
+    _sig_consts = module_constants(fi.module) if getattr(fi, 'module', None) is not None else {}
 
     def sig(name, visiting):
         if name in sigs:
@@ -700,7 +709,7 @@ def local_signatures(fi, params, surviving=None, keep=(), helper=None):
             for n in ast.walk(v):
                 if isinstance(n, ast.Name) and n.id in first and n.id not in params:
                     rn[n.id] = sig(n.id, visiting)
-            body = (d.kind, d.path, canon(v, params, rn))
+            body = (d.kind, d.path, canon(v, params, rn, {k_: v_ for k_, v_ in _sig_consts.items() if k_ not in first and k_ not in params}))
         h = 'L' + hashlib.md5(repr(body).encode()).hexdigest()[:8]
         sigs[name] = h
         return h
@@ -1033,6 +1042,13 @@ def canonical_func(fi):
                     bound |= {x.id for x in ast.walk(t) if isinstance(x, ast.Name) and isinstance(x.ctx, ast.Store)}
     a_ = node.args
     mark(node.body, {x.arg for x in a_.posonlyargs + a_.args + a_.kwonlyargs})
+    # a name stored anywhere textually earlier also counts (both arms of an earlier if / else, a loop before): `if c: v = E` is then
+    # `v = E if c else v` on every path on which v exists at all
+    stores_by_line = sorted((x.lineno, x.col_offset, x.id) for x in ast.walk(node) if isinstance(x, ast.Name) and isinstance(x.ctx, ast.Store) and hasattr(x, 'lineno'))
+    for st in ast.walk(node):
+        if isinstance(st, ast.If) and id(st) in bound_before:
+            earlier = {nm for ln, col, nm in stores_by_line if (ln, col) < (st.lineno, st.col_offset)}
+            bound_before[id(st)] = frozenset(bound_before[id(st)] | earlier)
 
     def sink_returns(body):
         """`<if / try whose every arm ends in v = e>; return v`  ->  every arm ends in `return e`."""
@@ -1322,6 +1338,38 @@ def canonical_func(fi):
             new_ret = ast.copy_location(ast.Return(value=ast.copy_location(v, i_)), i_)
             body[-2:] = [new_ret]
     merge_tail_returns(node.body)
+
+    def lambdas_for_local_defs(fn_node):
+        """A nested `def key(k): return <expr>` that is only handed around as a value (sorted(.., key=key)) is the lambda."""
+        for st in list(ast.walk(fn_node)):
+            body = getattr(st, 'body', None)
+            if not (isinstance(body, list) and body and isinstance(body[0], ast.stmt)):
+                continue
+            for d_ in [x for x in body if isinstance(x, ast.FunctionDef) and x is not fn_node]:
+                stmts = [x for x in d_.body if not (isinstance(x, ast.Expr) and isinstance(x.value, ast.Constant))]
+                a_ = d_.args
+                if len(stmts) != 1 or not isinstance(stmts[0], ast.Return) or stmts[0].value is None or d_.decorator_list \
+                        or a_.vararg or a_.kwarg or a_.kwonlyargs or a_.defaults:
+                    continue
+                refs = [x for x in ast.walk(fn_node) if isinstance(x, ast.Name) and x.id == d_.name]
+                if not refs or any(not isinstance(x.ctx, ast.Load) for x in refs):
+                    continue
+                if any(isinstance(x, (ast.Yield, ast.YieldFrom, ast.Await)) for x in ast.walk(d_)) or any(
+                        isinstance(x, ast.Name) and x.id == d_.name for x in ast.walk(stmts[0])):
+                    continue
+                lam = ast.Lambda(args=ast.arguments(posonlyargs=[], args=[ast.arg(arg=x.arg) for x in a_.posonlyargs + a_.args], vararg=None,
+                                                    kwonlyargs=[], kw_defaults=[], kwarg=None, defaults=[]), body=stmts[0].value)
+
+                class L(ast.NodeTransformer):
+                    def visit_Name(self, n):
+                        if n.id == d_.name and isinstance(n.ctx, ast.Load):
+                            return ast.copy_location(copy_ast(lam), n)
+                        return n
+                body.remove(d_)
+                for i_, other in enumerate(body):
+                    body[i_] = L().visit(other)
+        ast.fix_missing_locations(fn_node)
+    lambdas_for_local_defs(node)
     node = D().visit(node)
     ast.fix_missing_locations(node)
     node = _split_versions(fi, node)
@@ -1391,6 +1439,40 @@ def returns_container(repo, callee, depth):
     return ok
 
 
+def class_constants(fi, helper):
+    """{'self.NAME' / 'Class.NAME': value} for NAME = <number | string> at class level of the function's class (or its repo
+    bases) that no method re-binds through self."""
+    repo = helper.repo if helper is not None else getattr(getattr(fi, 'module', None), 'repo', None)
+    anchor = helper.fi if helper is not None else fi
+    if repo is None or not anchor.cls:
+        return {}
+    cq = '%s:%s' % (anchor.module.name, anchor.cls)
+    if cq not in repo.classes:
+        return {}
+    out = {}
+    rebound = set()
+    for k in repo.mro(cq):
+        ci = repo.classes[k]
+        for m in ci.methods.values():
+            for x in ast.walk(m.node):
+                if isinstance(x, ast.Attribute) and isinstance(x.ctx, (ast.Store, ast.Del)) and isinstance(x.value, ast.Name) and x.value.id in ('self', 'cls'):
+                    rebound.add(x.attr)
+    for k in reversed(repo.mro(cq)):
+        ci = repo.classes[k]
+        cnode = getattr(ci, 'node', None)
+        if cnode is None:
+            continue
+        for st in cnode.body:
+            if isinstance(st, ast.Assign) and len(st.targets) == 1 and isinstance(st.targets[0], ast.Name):
+                v = st.value
+                ok = (isinstance(v, ast.Constant) and isinstance(v.value, (int, float, str)) and not isinstance(v.value, bool)) or \
+                     (isinstance(v, ast.UnaryOp) and isinstance(v.op, ast.USub) and isinstance(v.operand, ast.Constant))
+                if ok and st.targets[0].id not in rebound:
+                    out['self.' + st.targets[0].id] = v
+                    out['%s.%s' % (k.split(':')[-1], st.targets[0].id)] = v
+    return out
+
+
 def effects(fi, keep=(), use_semiring=True, helper=None):
     """Canonical effect list of a function."""
     fi = canonical_func(fi)
@@ -1436,6 +1518,7 @@ def effects(fi, keep=(), use_semiring=True, helper=None):
                                 k += 1
 
     consts = {k: v for k, v in module_constants(fi.module).items() if k not in rename and k not in params}
+    consts.update(class_constants(fi, helper))
 
     def cz(x):
         if x is None:
